@@ -30,12 +30,14 @@ import (
 	"fmt"
 	"math"
 	"math/rand"
+	"os"
 	"sort"
 	"strconv"
 	"strings"
 	"sync"
 	"time"
 
+	"github.com/hydraide/hydraide/app/core/settings"
 	"github.com/hydraide/hydraide/app/name"
 	hydrapb "github.com/hydraide/hydraide/sdk/go/hydraidego/v3/hydraidepbgo"
 	"github.com/vmihailenco/msgpack/v5"
@@ -668,7 +670,12 @@ func c08Gen(rng *rand.Rand, tier string, w *bufio.Writer) {
 	fmt.Fprintln(w, "q created desc 0 0 2 9 2 |(a~eq~f64:4~,b~sin~s:a;b~)")
 
 	for c := 6; c < cases; c++ {
-		fmt.Fprintf(w, "case %d\n", c)
+		persistent := c%3 == 0
+		if persistent {
+			fmt.Fprintf(w, "case %dp\n", c)
+		} else {
+			fmt.Fprintf(w, "case %d\n", c)
+		}
 		theme := rng.Intn(10)
 		labelP, special, paging := 0, 0, false
 		switch {
@@ -715,6 +722,8 @@ func c08Gen(rng *rand.Rand, tier string, w *bufio.Writer) {
 				} else {
 					bodies[k] = c08GenBody(rng, w, fmt.Sprintf("k%d", k), cT, uT, eT)
 				}
+			case r < 55 && r >= 52 && persistent:
+				fmt.Fprintln(w, "reload")
 			case r < 52:
 				k := rng.Intn(nKeys)
 				delete(seenKey, k)
@@ -978,6 +987,11 @@ func c08Run(in *bufio.Scanner, w *bufio.Writer) {
 	}
 	defer rig.Stop(true)
 	rig.Settings.RegisterPattern(name.New().Sanctuary("c08").Realm("*").Swamp("*"), true, 3600, nil)
+	rig.Settings.RegisterPattern(name.New().Sanctuary("c08p").Realm("*").Swamp("*"), false, 3600,
+		&settings.FileSystemSettings{WriteIntervalSec: 1, MaxFileSizeByte: 8192})
+	if null, err := os.OpenFile(os.DevNull, os.O_WRONLY, 0); err == nil {
+		os.Stdout = null // the storage layer prints diagnostics; `w` already holds the real stdout
+	}
 	ctx := context.Background()
 	swampName := ""
 	seenPaths := map[string]bool{}
@@ -1008,9 +1022,26 @@ func c08Run(in *bufio.Scanner, w *bufio.Writer) {
 			}()
 			switch {
 			case f[0] == "case" && len(f) == 2:
-				swampName = name.New().Sanctuary("c08").Realm("routes").Swamp("case" + f[1]).Get()
+				if strings.HasSuffix(f[1], "p") {
+					swampName = name.New().Sanctuary("c08p").Realm("routes").Swamp("case" + f[1]).Get()
+				} else {
+					swampName = name.New().Sanctuary("c08").Realm("routes").Swamp("case" + f[1]).Get()
+				}
 				seenPaths = map[string]bool{}
 				return line
+			case f[0] == "reload" && len(f) == 1:
+				// close and summon again: buckets and ordered indexes are derived state and are rebuilt
+				nm := name.Load(swampName)
+				if ok, err := rig.Zeus.GetHydra().IsExistSwamp(1, nm); err != nil || !ok {
+					return "ok"
+				}
+				sw, err := rig.Zeus.GetHydra().SummonSwamp(ctx, 1, nm)
+				if err != nil {
+					return "err"
+				}
+				sw.Close()
+				seenPaths = map[string]bool{}
+				return "ok"
 			case f[0] == "body" && len(f) == 7:
 				raw, err := hex.DecodeString(f[5])
 				if err != nil {
